@@ -118,7 +118,7 @@ func clauseServes(c *sym.Clause, id string) bool {
 // contractServes: a function is under contract for property id when one of its clauses
 // carries the id as name prefix.
 func contractServes(ct *sym.Contract, id string) bool {
-	for _, cs := range [][]*sym.Clause{ct.Requires, ct.Ensures, ct.OnPanic, ct.Mints, ct.Burns} {
+	for _, cs := range [][]*sym.Clause{ct.Requires, ct.Ensures, ct.OnPanic, ct.Mints, ct.Burns, ct.Commutes} {
 		for _, c := range cs {
 			if clauseServes(c, id) {
 				return true
@@ -184,6 +184,19 @@ func (e *Engine) RunContracts(pc *PropertyCheck, timeout time.Duration, maxPaths
 		full := shortPkg(fn) + "." + fkey
 		pc.Funcs = append(pc.Funcs, full)
 		fr := e.Env.VerifyFunc(fn, ct, maxPaths)
+		for _, cc := range ct.Commutes {
+			if !clauseServes(cc, pc.ID) {
+				continue
+			}
+			cr := e.Env.CommuteCheck(fn, ct, cc, maxPaths)
+			fr.Paths = append(fr.Paths, cr.Paths...)
+			for m, n := range cr.Aborts {
+				fr.Aborts["commute: "+m] += n
+			}
+			if cr.Capped {
+				fr.Capped = true
+			}
+		}
 		var obs []*sym.Oblig
 		for _, p := range fr.Paths {
 			for _, o := range p.Obligs {
@@ -303,7 +316,7 @@ func (e *Engine) RunContracts(pc *PropertyCheck, timeout time.Duration, maxPaths
 // isOtherPropertyClause: the obligation is an ensures/onpanic clause tagged only with other
 // property ids (it is checked by those properties' runs).
 func isOtherPropertyClause(name, id string) bool {
-	for _, kind := range []string{"/ensures:", "/onpanic:", "/rowinv:", "/lemma:", "/mints:", "/burns:", "/cover:"} {
+	for _, kind := range []string{"/ensures:", "/onpanic:", "/rowinv:", "/lemma:", "/mints:", "/burns:", "/cover:commutes:", "/cover:", "/commutes:"} {
 		i := strings.Index(name, kind)
 		if i < 0 {
 			continue
